@@ -402,7 +402,8 @@ fn queue_client_spy(case: &WriterCase, w: std::time::Duration) -> Vec<oracle::Op
         done: done.clone(),
         released: ReleaseSignal(released.clone()),
     };
-    let q = QueuingMetricSink::from(rec);
+    // every public constructor / builder path of the queuing sink must forward flush()
+    let q: QueuingMetricSink = crate::queue::build_queuing(rec, util::hash_json(case));
     let client = StatsdClient::from_sink("", q.clone());
     let att = |v: Vec<Vec<u8>>| -> Vec<Attempt> { v.into_iter().map(|bytes| Attempt { bytes, err: None }).collect() };
     let mut out = Vec::new();
